@@ -194,3 +194,194 @@ def install(eng):
                 "dict_eq(disk_tracked[StatePath(the_backend)], the_backend._tracked_jobs))"]},
         },
         uses=list(sc.uses) + ["reach"], serves=["C04", "C05", "C09", "C10", "C02"])
+
+    # ================================================================== gwf touch (C16)
+    import pathlib
+    FnRef = vc.FnRef
+    PO = T.ObjT("PathObj")
+    eng.cls("PathObj", consts={"text": vc.Path})
+    f_text = eng.const_fn("PathObj", "text", vc.Path)
+    f_mkpath = z3.Function("PathObj.of", vc.Path.sort(), PO.sort())
+    eng.axioms.append(z3.ForAll([p_ := vc.Path.fresh("p")], f_text(f_mkpath(p_)) == p_))
+    eng.rules[pathlib.Path] = lambda e, args, kw, st, sink, n: iter([(st, V(PO, f_mkpath(e.coerce(args[0], vc.Path, n).z)))])
+    eng.ghost("first_touch", T.DictT(vc.Path, T.INT))
+    eng.ghost("last_touch", T.MapT(vc.Path, T.INT))
+    eng.ghost("touch_n", T.INT)
+    eng.ghost("visited", TS)
+    TG = ["ghost:first_touch", "ghost:last_touch", "ghost:touch_n"]
+    eng.contract(
+        "iface:PathObj.touch", self_type=PO, params={"self": PO, "exist_ok": T.BOOL}, trusted=True, modifies=TG,
+        requires=["exist_ok"],
+        ensures=["forall(lambda p: (p in first_touch) == (p in old(first_touch) or p == self.text), Path)",
+                 "first_touch[self.text] == (old(first_touch)[self.text] if self.text in old(first_touch) else old(touch_n))",
+                 "all(first_touch[p] == old(first_touch)[p] for p in old(dom(first_touch)))",
+                 "last_touch == store(old(last_touch), self.text, old(touch_n))", "touch_n == old(touch_n) + 1"],
+        note="pathlib.Path.touch(exist_ok=True): creates an empty file or only updates the times, never the "
+             "content (trusted); the ghost records the first and the last touch position of every path")
+    TINV = [
+        "forall(lambda u, d: (d in DepsOf(graph, u)) == (d in deps0(u)), Target, Target)",
+        "forall(lambda u, d: implies(d in deps0(u), 0 <= fin[d] and fin[d] < fin[u] and InT(d) and InT(u)), Target, Target)",
+        "forall(lambda u, v: implies(InT(u) and InT(v) and u.name == v.name, u == v), Target, Target)",
+        "forall(lambda a, b, p: implies(InT(a) and InT(b) and p in Outs(a) and p in Outs(b), a == b), Target, Target, Path)",
+        "touch_n >= 0",
+        "all(0 <= first_touch[p] and first_touch[p] <= last_touch[p] and last_touch[p] < touch_n for p in first_touch)",
+        # exactly the outputs of the visited targets have been touched (nothing outside the cone)
+        "forall(lambda p: (p in first_touch) == any(p in Outs(u) for u in visited), Path)",
+        "all(InT(u) and X(u) for u in visited)",
+        "all(d in visited for u in visited for d in deps0(u))",
+        # modification times follow the dependency order: a dependency's outputs are touched (for the last time)
+        # before the first touch of any output of its dependent
+        "all(last_touch[pd] < first_touch[po] for u in visited for d in deps0(u) for pd in Outs(d) for po in Outs(u))",
+        # C16/C18: the current spec of every visited target is recorded
+        "all(not Changed(spec_hashes, u) for u in visited)",
+    ]
+    TMODS = ["Graph.dependencies", "SpecHashes.hashes", "ghost:visited"] + TG
+    eng.contract(
+        "gwf.plugins.touch:touch_workflow._visit", params={"target": vc.Target},
+        captures={"graph": G, "spec_hashes": H, "_visit": FnRef("gwf.plugins.touch:touch_workflow._visit")},
+        memo="visited", requires=TINV + ["InT(target)", "X(target)"], modifies=TMODS,
+        ensures=TINV + ["target in visited", "subset(old(visited), visited)",
+                        "all(rank(u) <= rank(target) for u in visited if u not in old(visited))"],
+        loops={1: Loop(seen="sd", inv=TINV + [
+            "target not in visited", "InT(target)", "X(target)", "all(d in visited for d in sd)",
+            "subset(old(visited), visited)",
+            "all(rank(u) < rank(target) for u in visited if u not in old(visited))"]),
+            2: Loop(seen="sp", inv=[i for i in TINV if "(p in first_touch) ==" not in i and "last_touch[pd]" not in i] + [
+                "target not in visited", "InT(target)", "X(target)", "all(d in visited for d in deps0(target))",
+                "subset(old(visited), visited)",
+                "all(rank(u) < rank(target) for u in visited if u not in old(visited))",
+                "forall(lambda p: (p in first_touch) == (any(p in Outs(u) for u in visited) or p in sp), Path)",
+                "all(last_touch[pd] < first_touch[po] for u in visited for d in deps0(u) for pd in Outs(d) for po in Outs(u))",
+                "all(last_touch[pd] < first_touch[po] for d in deps0(target) for pd in Outs(d) for po in sp)",
+                "not Changed(spec_hashes, target)"])},
+        decreases="tup(rank(target), 0)", rec_group="touch", uses=["cone"], serves=["C16", "C18"])
+    eng.contract(
+        "gwf.plugins.touch:touch_workflow", params={"endpoints": TS, "graph": G, "spec_hashes": H},
+        requires=[i for i in TINV[:4]] + ["all(InT(e) for e in endpoints)"],
+        defines=["X"],
+        entry_assume=["all(X(e) for e in endpoints)", "dom(first_touch) == NoPaths", "touch_n == 0", "visited == NoTargets"],
+        modifies=TMODS,
+        ensures=TINV + ["all(e in visited for e in endpoints)"],
+        loops={1: Loop(seen="se", inv=TINV + ["all(e in visited for e in se)"])},
+        uses=["cone"], serves=["C16", "C18"])
+
+    # ================================================================== click (trusted)
+    import click
+    import builtins as _bi
+    from pyvc.core import Exc
+
+    def r_confirm(e, args, kw, st, sink, n):
+        # click.confirm(..., abort=True): returns True on "yes", raises click.Abort on "no"
+        sink.append((st, Exc(click.exceptions.Abort)))
+        yield st, e.lift(True)
+
+    eng.rules[click.confirm] = r_confirm
+    eng.rules[click.echo] = lambda e, args, kw, st, sink, n: iter([(st, e.lift(None))])
+    eng.rules[click.secho] = lambda e, args, kw, st, sink, n: iter([(st, e.lift(None))])
+    eng.rules[click.format_filename] = lambda e, args, kw, st, sink, n: iter([(st, e.to_str(args[0], n))])
+    eng.exc_names["Abort"] = click.exceptions.Abort
+
+    def raw_sum(e, n, st, sink):
+        """sum(<generator>) whose value is only logged: the generator may only call read-only functions"""
+        ok = {"getsize", "exists", "protected", "flattened_outputs", "flattened_inputs"}
+        for sub in __import__("ast").walk(n.args[0]):
+            if isinstance(sub, __import__("ast").Call):
+                f = sub.func
+                nm = f.attr if hasattr(f, "attr") else getattr(f, "id", None)
+                if nm not in ok:
+                    from pyvc.core import Unsupported
+                    raise Unsupported(f"sum() over a generator calling {nm}", n)
+        yield st, V(T.INT, z3.FreshConst(z3.IntSort(), "sum"))
+
+    eng.raw_rules[_bi.sum] = raw_sum
+
+    # ================================================================== gwf clean (C15)
+    eng.contract("gwf.core:Target.protected", self_type=vc.Target, params={"self": vc.Target},
+                 returns=vc.PathSet, returns_expr="Prot(self)", trusted=True, pure=True,
+                 note="set(_norm_paths(working_dir, _flatten(protect))): same Canon as the outputs")
+    eng.contract("gwf.plugins.clean:_delete_file", params={"path": vc.Path}, modifies=["ghost:fs_removed"],
+                 ensures=["forall(lambda p: implies(p in fs_removed, p in old(fs_removed) or p == path), Path)"],
+                 serves=["C15"], note="an OSError from os.remove is swallowed: the file then simply stays")
+    DISKH = ["ghost:disk_exists", "ghost:disk_valid", "ghost:disk_hashes"]
+    CLEANMODS = GRAPHMODS + ["ghost:fs_removed", "SpecHashes.hashes", "NameFilter.patterns", "EndpointFilter.endpoints",
+                             "EndpointFilter.mode", "CompositeFilter.filters"] + DISKH
+    SEL = ("(InT(t) and (len(targets) == 0 or any(Matches(t.name, p) for p in targets)) and "
+           "(all or exists(lambda b: t in deps0(b), Target)))")
+    eng.contract(
+        "gwf.plugins.clean:clean", params={"ctx": Ctx, "targets": LP, "all": T.BOOL, "force": T.BOOL},
+        locals={"filters": T.ListV(vc.Filter), "matches": T.ListV(vc.Target)},
+        defines=["InT", "deps0", "Reach"], modifies=CLEANMODS,
+        ensures=[
+            # C15: a file is removed only if it is an unprotected declared output of a selected target
+            "forall(lambda p: implies(p in fs_removed and p not in old(fs_removed), "
+            "exists(lambda t: %s and p in Outs(t) and p not in Prot(t), Target)), Path)" % SEL],
+        raises={"FileProvidedByMultipleTargetsError": NOEFFECT, "UnresolvedInputError": NOEFFECT,
+                "CircularDependencyError": NOEFFECT,
+                # C15: a declined confirmation changes nothing at all
+                "Abort": {"cond": "True", "modifies": GRAPHMODS + ["NameFilter.patterns", "EndpointFilter.endpoints",
+                                                                   "EndpointFilter.mode", "CompositeFilter.filters"]},
+                "json.JSONDecodeError": {"cond": "True", "ensures": ["fs_removed == old(fs_removed)"]}},
+        loops={1: Loop(seen="st", inv=[
+            "forall(lambda p: implies(p in fs_removed and p not in old(fs_removed), "
+            "exists(lambda t: t in st and p in Outs(t) and p not in Prot(t), Target)), Path)"]),
+            2: Loop(seen="sp", inv=[
+                "forall(lambda p: implies(p in fs_removed and p not in old(fs_removed), "
+                "exists(lambda t: (t in st or t == target) and p in Outs(t) and p not in Prot(t), Target)), Path)"])},
+        uses=["reach"], serves=["C15", "C04", "C18"])
+
+    # ================================================================== gwf touch command, gwf cancel (C16, C17)
+    eng.contract(
+        "gwf.plugins.touch:touch", params={"ctx": Ctx, "targets": LP},
+        defines=["InT", "deps0", "Reach", "X"],
+        entry_assume=["dom(first_touch) == NoPaths", "touch_n == 0", "visited == NoTargets"],
+        modifies=GRAPHMODS + TMODS + DISKH + ["NameFilter.patterns"],
+        ensures=[i for i in TINV[4:] if "spec_hashes" not in i],
+        raises={"FileProvidedByMultipleTargetsError": NOEFFECT, "UnresolvedInputError": NOEFFECT,
+                "CircularDependencyError": NOEFFECT,
+                "json.JSONDecodeError": {"cond": "True", "ensures": ["dom(first_touch) == NoPaths"]}},
+        uses=["cone", "reach"], serves=["C16", "C04"])
+    vc.f_cancel_fails = z3.Function("CancelFails", vc.JobId.sort(), z3.BoolSort())
+    eng.fn("CancelFails")(lambda e, st, j: V(T.BOOL, vc.f_cancel_fails(j.z)))
+    oc = eng.contracts["iface:Ops.cancel_job"]
+    oc.ensures = list(oc.ensures) + ["not CancelFails(job_id)"]
+    oc.raises = {"BackendError": {"cond": "CancelFails(job_id)", "modifies": []}}
+    tc = eng.contracts["gwf.backends.base:TrackingBackend.cancel"]
+    tc.ensures = list(tc.ensures) + ["not CancelFails(self._tracked_jobs[target.name])"]
+    tc.raises = {"TargetError": {"cond": "target.name not in self._tracked_jobs", "modifies": []},
+                 "BackendError": {"cond": "target.name in self._tracked_jobs and CancelFails(self._tracked_jobs[target.name])",
+                                  "modifies": []}}
+    CANCELLED_ONLY = ("forall(lambda j: implies(j in sched_cancelled and j not in old(sched_cancelled), "
+                      "any(t.name in backend._tracked_jobs and backend._tracked_jobs[t.name] == j for t in %s)), JobId)")
+    eng.contract(
+        "gwf.plugins.cancel:cancel_many", params={"backend": B, "targets": TS}, modifies=["ghost:sched_cancelled"],
+        ensures=[
+            # C17: only the latest jobs of the selected targets ...
+            CANCELLED_ONLY % "targets",
+            # ... and every one of them, whatever happened to the others (never submitted, scheduler error)
+            "all(implies(t.name in backend._tracked_jobs and not CancelFails(backend._tracked_jobs[t.name]), "
+            "backend._tracked_jobs[t.name] in sched_cancelled) for t in targets)"],
+        loops={1: Loop(seen="sc", inv=[
+            CANCELLED_ONLY % "sc",
+            "all(implies(t.name in backend._tracked_jobs and not CancelFails(backend._tracked_jobs[t.name]), "
+            "backend._tracked_jobs[t.name] in sched_cancelled) for t in sc)",
+            "forall(lambda j: implies(j in old(sched_cancelled), j in sched_cancelled), JobId)"])},
+        serves=["C17"])
+    eng.contract(
+        "gwf.plugins.cancel:cancel", params={"ctx": Ctx, "targets": LP, "force": T.BOOL},
+        defines=["InT", "deps0", "Reach"],
+        modifies=GRAPHMODS + ["ghost:sched_cancelled", "Backend._tracked_jobs", "Backend._job_states",
+                              "NameFilter.patterns"] + DISKT,
+        ensures=[
+            "forall(lambda j: implies(j in sched_cancelled and j not in old(sched_cancelled), "
+            "exists(lambda t: InT(t) and (len(targets) == 0 or any(Matches(t.name, p) for p in targets)) and "
+            "t.name in the_backend._tracked_jobs and the_backend._tracked_jobs[t.name] == j, Target)), JobId)",
+            "forall(lambda t: implies(InT(t) and (len(targets) == 0 or any(Matches(t.name, p) for p in targets)) and "
+            "t.name in the_backend._tracked_jobs and not CancelFails(the_backend._tracked_jobs[t.name]), "
+            "the_backend._tracked_jobs[t.name] in sched_cancelled), Target)"],
+        raises={"FileProvidedByMultipleTargetsError": NOEFFECT, "UnresolvedInputError": NOEFFECT,
+                "CircularDependencyError": NOEFFECT,
+                "Abort": {"cond": "True", "modifies": []},         # declined prompt: nothing was cancelled
+                "BackendError": {"cond": "True", "ensures": ["sched_cancelled == old(sched_cancelled)"]},
+                "json.JSONDecodeError": {"cond": "True", "ensures": ["sched_cancelled == old(sched_cancelled)"]},
+                "OSError": {"cond": "True", "ensures": []}},
+        uses=["reach"], serves=["C17", "C04"])
